@@ -91,6 +91,13 @@ impl Engine for Msim {
                 strategy: gen::sweep_case(&ctx.prop, thorough),
             });
         }
+        if ctx.prop == "C04" {
+            stages.push(Stage {
+                name: "timeouts".into(),
+                cases: if thorough { 16 * 100000 } else { 16 * 6000 },
+                strategy: gen::timed_case(thorough),
+            });
+        }
         if ctx.prop == "C03" {
             stages.insert(
                 0,
@@ -105,7 +112,9 @@ impl Engine for Msim {
     }
 
     fn run(ctx: &Ctx, case: &case::Case) -> Report {
-        if case.matrix.is_some() {
+        if let Some(t) = &case.timed {
+            <tsim::Tsim as Engine>::run(ctx, t)
+        } else if case.matrix.is_some() {
             matrix::run(ctx, case)
         } else if case.sweep.is_some() {
             sweep::run(ctx, case)
